@@ -430,7 +430,58 @@ def r5_polarity(prog, res):
                 {"enabled": verdict})
 
 
+def r6_quoted_counts(prog, res):
+    """A number quoted in a diagnostic that was counted by a loop is the count of the whole construct only if the loop cannot be
+    left early: a `break` / `return` / `goto` inside the counting loop makes the message quote the position where the loop
+    stopped (and a test of that number, e.g. `count % 8`, misfire)."""
+    from engines import call_args
+    n = 0
+    counters = {}
+    for f in prog.all_functions():
+        if f.component not in ("express", "exppp", "exp2cxx", "exp2python") or f.cfg is None:
+            continue
+        reps = [c for c in f.calls() if (c.get("fn") or "") in REPORTERS]
+        if not reps:
+            continue
+        loops = [x for x in f.walk() if x["k"] in ("For", "While", "Do")]
+        for c in reps:
+            a = call_args(c)
+            for arg in a[REPORTERS[c["fn"]]:]:
+                v = strip(arg)
+                if v is None or v["k"] != "Ref" or v.get("dk") != "local":
+                    continue
+                for lp in loops:
+                    if any(y is c for y in walk(lp)):
+                        continue
+                    incs = [y for y in walk(lp) if (y["k"] == "Unary" and y.get("op") in ("post++", "pre++") and strip(y["ch"][0]) is not None and strip(y["ch"][0]).get("d") == v["d"]) or
+                            (y["k"] == "CompoundAssign" and y.get("op") == "+=" and strip(y["ch"][0]) is not None and strip(y["ch"][0]).get("d") == v["d"])]
+                    if not incs:
+                        continue
+                    if not f.cfg.reaches(f.cfg.locate(incs[0]), f.cfg.locate(c)):
+                        continue
+                    n += 1
+                    body = lp["ch"][-1] if lp["k"] != "Do" else lp["ch"][0]
+                    early = []
+                    def scan(node, depth):
+                        if node is None:
+                            return
+                        k = node["k"]
+                        if k in ("Return", "Goto") or (k == "Break" and depth == 0):
+                            early.append(node)
+                        nd = depth + (1 if k in ("For", "While", "Do", "Switch") else 0)
+                        for ch_ in node.get("ch") or []:
+                            scan(ch_, nd)
+                    scan(body, 0)
+                    ok = not early
+                    res.add("R6.quoted_count_is_complete", site_key(f, "R6", "count:%s" % v["n"], counters), f.where(c), ok,
+                            "`%s`, quoted by this diagnostic, is counted by a loop that always runs to its end" % v["n"] if ok else
+                            "`%s` is quoted by this diagnostic but the loop that counts it can be left early (line %s): the message then quotes "
+                            "the position where the loop stopped, not the count of the whole construct" % (v["n"], early[0]["l"]))
+    res.floor("R6.quoted_count_is_complete", "diagnostics that quote a loop counter", n, 1)
+
+
 def run(prog, res, tier):
+    r6_quoted_counts(prog, res)
     t = table(prog, res)
     if t is None:
         return
